@@ -7,6 +7,7 @@ import VrlModel.Driver.C29int
 import VrlModel.Driver.C20
 import VrlModel.Driver.C22
 import VrlModel.Driver.C23
+import VrlModel.Driver.C24
 
 /-- Line protocol driver: one case per line `op <tab> arg…`, one reply line per case. -/
 def handlers : List (String → List String → Option String) := [
@@ -18,7 +19,8 @@ def handlers : List (String → List String → Option String) := [
   Driver.C29int.handle,
   Driver.C20.handle,
   Driver.C22.handle,
-  Driver.C23.handle
+  Driver.C23.handle,
+  Driver.C24.handle
 ]
 
 def dispatch (op : String) (args : List String) : String :=
